@@ -3,7 +3,7 @@
 (* a ~70-value pool; the coherence laws are invariants; every pair is       *)
 (* replayed through the Rust API and through templates.                     *)
 EXTENDS LiquidCompare, Json
-CONSTANTS EmitAll
+CONSTANTS EmitAll, PoolSel
 
 I(t) == [k |-> "int", n |-> t]
 Fl(nu, de) == [k |-> "float", num |-> nu, den |-> de]
@@ -37,9 +37,14 @@ Pool ==
     SixKeys(I("1")), SixKeys(I("2")), SixKeys(A(<<I("1")>>)),
     O([key \in {"a"} |-> O([key2 \in {"x", "y", "z"} |-> I("1")])]) }
 
+\* 2020-01-01 00:30 +02:00 is half an hour before 2019-12-31 23:00 +00:00 although its local date is a day later
+MoreDates == {Dt(1577831400, 7200), Dt(1577833200, 0), Dt(1577831400, 0 - 3600)}
+ThePool == IF PoolSel = "dates" THEN {v \in Pool : v.k \in {"datetime", "date"}} \cup MoreDates \cup {Nil, S(<<50>>)}
+           ELSE Pool \cup MoreDates
+
 VARIABLE pr
-Init == pr \in {[sd |-> "seed", a |-> a] : a \in Pool}
-Next == pr.sd = "seed" /\ \E b \in Pool : pr' = [sd |-> "pair", a |-> pr.a, b |-> b]
+Init == pr \in {[sd |-> "seed", a |-> a] : a \in ThePool}
+Next == pr.sd = "seed" /\ \E b \in ThePool : pr' = [sd |-> "pair", a |-> pr.a, b |-> b]
 Spec == Init /\ [][Next]_pr
 IsPair == pr.sd = "pair"
 X == pr.a  Y == pr.b
